@@ -1,2 +1,426 @@
-"""Engine for C16-C19 (control model M3)."""
-PROPS = []
+"""Engine for C16–C19: the control model M3 (command table, parse/dispatch, session loop, server life cycle)
+against the real control package.
+
+Every run: (1) the member table of the served classes is regenerated from the real classes with `inspect` and handed
+to the compiled Lean model (`cdriver`); (2) generated + corpus cases are executed on the real code and on the model and
+compared (translation validation for C17, own-output oracle + session model for C18, life-cycle model for C19, parser
+surface for C16); (3) the property's monitors — direct statements of the property over the real run — are evaluated.
+A monitor failure is a VIOLATION with a replayable case; a broken proof or a model/implementation disagreement without
+a monitor failure is a VIOLATION ending in `no-failing-input-found`."""
+import collections
+import glob
+import hashlib
+import json
+import multiprocessing as mp
+import os
+import random
+import re
+import time
+
+from . import control_gen as G
+from .leanproj import proof_coverage
+
+ROOT = os.path.dirname(os.path.dirname(os.path.abspath(__file__)))
+PROPS = ["C16", "C17", "C18", "C19"]
+
+CLASSES_ALL = ["TaskPool", "SimpleTaskPool", "PlusPool", "SimplePlus"]
+BUDGET = {
+    "C16": {"quick": 6, "thorough": 60},          # extra seeded (class, width, pool name) sweeps beside the fixed grid
+    "C17": {"quick": 90, "thorough": 1500},       # random scripts (beside the complete option-subset sweep)
+    "C18": {"quick": 50, "thorough": 900},
+    "C19": {"quick": 22, "thorough": 320},
+}
+CLI_CLIENTS = {"quick": 5, "thorough": 60}
+
+
+# ------------------------------------------------------------------------------------------------ files
+def known_findings(prop):
+    try:
+        with open(os.path.join(ROOT, "known_findings.json")) as fh:
+            data = json.load(fh)
+    except FileNotFoundError:
+        return []
+    return [f for f in data.get("findings", []) if f["property"] == prop and isinstance(f.get("witness"), dict)]
+
+
+def corpus(prop):
+    out = []
+    for path in sorted(glob.glob(os.path.join(ROOT, "corpus", prop, "*.json"))):
+        with open(path) as fh:
+            d = json.load(fh)
+        out.append((os.path.relpath(path, ROOT), d["body"]))
+    return out
+
+
+def digest(obj):
+    return hashlib.sha1(json.dumps(obj, sort_keys=True).encode()).hexdigest()[:16]
+
+
+# ------------------------------------------------------------------------------------------------ case generation
+def gen_case(prop, rng, tier, i):
+    from . import control_net as N
+    from . import control_run as R
+    if prop == "C16":
+        cls = rng.choice(CLASSES_ALL)
+        width = rng.choice([rng.randint(-50, 300), rng.randint(-10 ** 9, 10 ** 9), rng.choice([2, 11, 40, 79, 81, 200])])
+        name = "".join(rng.choice("abcXYZ019-_. ") for _ in range(rng.randint(1, 8))).strip() or "p"
+        return {"check": "help", "cls": cls, "width": width, "name": name}
+    if prop == "C17":
+        cls = rng.choice(["TaskPool", "TaskPool", "SimpleTaskPool", "SimpleTaskPool", "PlusPool", "SimplePlus"])
+        ctx = R.class_ctx(cls)
+        script = []
+        for _ in range(rng.randint(12, 40)):
+            r = rng.random()
+            if r < 0.06:
+                script.append(["env", "release"])
+            else:
+                script.append(["line", 0, G.session_line(rng, ctx["cmds"], ctx["flags"], (0.8, 0.17, 0.03))])
+        return {"mode": "tv", "cls": cls, "width": rng.choice([60, 80, 100]), "nsess": 1, "script": script}
+    if prop == "C18":
+        cls = rng.choice(["TaskPool", "TaskPool", "SimpleTaskPool", "SimpleTaskPool", "PlusPool", "SimplePlus"])
+        ctx = R.class_ctx(cls, counting=True)
+        nsess = rng.choice([1, 1, 2, 3])
+        prof = rng.choice([(0.45, 0.25, 0.2), (0.2, 0.2, 0.35), (0.6, 0.3, 0.05)])
+        script = []
+        waiters = [c for c in ("gather-and-close", "until-closed", "flush") if c in ctx["cmds"]]
+        starters = ["apply harness.wmod.w -n 2", "start 2", "map harness.wmod.w [1,2,3]"]
+        for _ in range(rng.randint(12, 36)):
+            r = rng.random()
+            s = rng.randrange(nsess)
+            if r < 0.05:
+                script.append(["env", "release"])
+            elif r < 0.12 and nsess > 1:
+                a, b = rng.sample(range(nsess), 2)
+                script.append(["pair", [a, G.session_line(rng, ctx["cmds"], ctx["flags"], (0.0, 0.5, 0.3))],
+                               [b, G.session_line(rng, ctx["cmds"], ctx["flags"], (0.0, 0.5, 0.3))]])
+            elif r < 0.2:
+                st = [x for x in starters if x.split(" ")[0] in ctx["cmds"]]
+                if st:
+                    script.append(["line", s, rng.choice(st)])
+                quiet = ["num-running", "is-locked", "pool-size", "bogus", "num-ended -h"]
+                extra = {"queued": [rng.choice(quiet) for _ in range(rng.randint(0, 2))]}
+                if nsess > 1:
+                    extra["meanwhile"] = [[(s + 1) % nsess, rng.choice(quiet + ["cancel-all", "lock"])]
+                                          for _ in range(rng.randint(0, 2))]
+                script.append(["line", s, rng.choice(waiters + ["flush -r"]), extra])
+            elif r < 0.23:
+                script.append(["blank", s])
+            else:
+                script.append(["line", s, G.session_line(rng, ctx["cmds"], ctx["flags"], prof)])
+        return {"mode": "iso", "cls": cls, "width": rng.choice([20, 80, 120]), "nsess": nsess, "script": script}
+    if prop == "C19":
+        budget = [1 if rng.random() < (0.25 if tier == "quick" else 0.2) else 0]
+        return {"transport": rng.choice(["tcp", "unix"]), "cls": rng.choice(["TaskPool", "SimpleTaskPool"]),
+                "ops": N.gen_ops(rng, tier, budget)}
+    raise ValueError(prop)
+
+
+def fixed_cases(prop, tier):
+    """the enumerated part of a check (independent of the seed)"""
+    from . import control_run as R
+    from . import control_world as W
+    cases = []
+    if prop == "C16":
+        for cls in CLASSES_ALL:
+            cases.append({"check": "table", "cls": cls})
+            for w in W.WIDTHS:
+                cases.append({"check": "help", "cls": cls, "width": w, "name": "P"})
+    if prop == "C17":
+        # every subset of the options of every command, values drawn from each parameter's domain
+        for cls in ["TaskPool", "SimpleTaskPool", "PlusPool"] + (["SimplePlus"] if tier == "thorough" else []):
+            ctx = R.class_ctx(cls)
+            rng = random.Random(hash_str(cls))
+            lines = []
+            for cmd, m in sorted(ctx["cmds"].items()):
+                if m["kind"] != "function":
+                    lines.append(cmd)
+                    continue
+                if cmd in ("gather-and-close", "until-closed"):
+                    continue
+                for sub in G.all_option_subsets(m):
+                    for first in ((False, True) if sub else (False,)):
+                        lines.append(G.command_line(rng, cmd, m, ctx["flags"][cmd], subset=sub, opts_first=first))
+            for k in range(0, len(lines), 40):
+                cases.append({"mode": "tv", "cls": cls, "width": 80, "nsess": 1, "sweep": True,
+                              "script": [["line", 0, ln] for ln in lines[k:k + 40]]
+                              + [["env", "release"], ["line", 0, "flush"], ["line", 0, "gather-and-close"],
+                                 ["line", 0, "until-closed"], ["line", 0, "num-running"]]})
+    return cases
+
+
+def hash_str(s):
+    return int(hashlib.sha1(s.encode()).hexdigest()[:8], 16)
+
+
+# ------------------------------------------------------------------------------------------------ running one case
+def run_case(prop, case):
+    """-> (failures, stats Counter, samples, nontrivial keys)"""
+    from . import control_net as N
+    from . import control_run as R
+    if prop == "C16":
+        if case["check"] == "table":
+            fails, st = R.check_table(case["cls"])
+            c = collections.Counter({"tables": 1, "actions_compared": st.get("actions", 0), "commands": st.get("commands", 0)})
+            keys = {f"{case['cls']}:table:{k}" for k in range(st.get("commands", 0))}
+            return fails, c, [{"class": case["cls"], "commands": st.get("commands", 0)}], keys
+        fails, st = R.check_handshake_help(case["cls"], case["width"], case.get("name", "P"), case.get("lines"))
+        st["w:" + str(case["width"])] += st.get("help_requests", 0)
+        keys = {f"{case['cls']}:{case['width']}:{k}" for k in range(st.get("help_requests", 0))}
+        return fails, st, [{"class": case["cls"], "width": case["width"], "help_requests": st.get("help_requests", 0)}], keys
+    if prop in ("C17", "C18"):
+        r = R.ScriptRun(case)
+        fails, st, samples = r.run()
+        keys = set()
+        for ln in r.lines:
+            v = r.verdict.get(ln)
+            if v is None:
+                continue
+            if prop == "C17" and v["kind"] in ("call", "get", "set"):
+                keys.add(case["cls"] + "|" + ln)
+            if prop == "C18" and ln.strip():
+                keys.add(case["cls"] + "|" + ln)
+        st["scripts"] += 1
+        st["sessions"] += case.get("nsess", 1)
+        return fails, st, samples, keys
+    if prop == "C19":
+        r = N.NetRun(case)
+        fails, st, trace = r.run()
+        st["cases"] += 1
+        st["t:" + case["transport"]] += 1
+        ops = [o[0] for o in case["ops"]]
+        keys = {digest(case)} if ("connect" in ops and "stop" in ops) else set()
+        return fails, st, [{"transport": case["transport"], "ops": case["ops"]}], keys
+    raise ValueError(prop)
+
+
+def fail_key(f):
+    return (f["kind"], f.get("monitor") or f.get("what"))
+
+
+def work(job):
+    prop, seed, tier, start, count, extra = job
+    res = {"cases": 0, "stats": collections.Counter(), "failures": [], "keys": set(), "samples": [], "digests": set()}
+    todo = [(name, c) for name, c in extra]
+    for i in range(start, start + count):
+        rng = random.Random(seed * 1000003 + i)
+        todo.append((f"gen:{seed}:{i}", gen_case(prop, rng, tier, i)))
+    for name, case in todo:
+        fails, st, samples, keys = run_case(prop, case)
+        res["cases"] += 1
+        res["stats"].update(st)
+        res["keys"] |= keys
+        res["digests"].add(digest(case))
+        if len(res["samples"]) < 2:
+            res["samples"].extend(samples[:2])
+        for f in fails:
+            res["failures"].append(dict(f, source=name, case=case))
+    return res
+
+
+# ------------------------------------------------------------------------------------------------ shrinking
+def items_of(case):
+    for k in ("script", "ops", "lines"):
+        if k in case:
+            return k
+    return None
+
+
+def shrink(prop, f, budget=40):
+    case = f["case"]
+    key = items_of(case)
+    want = fail_key(f)
+    if key is None:
+        return case
+
+    def still(c):
+        try:
+            fails, _, _, _ = run_case(prop, c)
+        except Exception:
+            return False
+        return any(fail_key(g) == want for g in fails)
+
+    items = list(case[key])
+    spent = 0
+    size = max(1, len(items) // 2)
+    while size >= 1 and spent < budget:
+        i = 0
+        while i < len(items) and spent < budget:
+            cand = items[:i] + items[i + size:]
+            spent += 1
+            if cand and still(dict(case, **{key: cand})):
+                items = cand
+            else:
+                i += size
+        size //= 2
+    return dict(case, **{key: items})
+
+
+# ------------------------------------------------------------------------------------------------ the check
+def trigger_holds(k, f):
+    t = k.get("trigger", "any")
+    if t == "any":
+        return True
+    if isinstance(t, dict) and "line_matches" in t:
+        return bool(re.search(t["line_matches"], str(f.get("line", ""))))
+    return False
+
+
+def run(prop, tier, seed, jobs, proof, out):
+    from . import control_world as W
+    total = BUDGET[prop][tier]
+    extra = [(f"fixed:{i}", c) for i, c in enumerate(fixed_cases(prop, tier))] + corpus(prop)
+    kf = known_findings(prop)
+    chunks = max(1, min(jobs, total)) * (2 if total >= 2 * jobs else 1)
+    per = -(-total // chunks)
+    jobl = []
+    # the fixed + corpus cases are spread over the workers, the generated ones are index ranges of the seed
+    for k in range(chunks):
+        jobl.append((prop, seed, tier, k * per, max(0, min(per, total - k * per)), extra[k::chunks]))
+    agg = {"cases": 0, "stats": collections.Counter(), "failures": [], "keys": set(), "samples": [], "digests": set()}
+    with mp.Pool(min(jobs, chunks)) as pool:
+        for s in pool.imap_unordered(work, jobl):
+            agg["cases"] += s["cases"]
+            agg["stats"].update(s["stats"])
+            agg["failures"].extend(s["failures"])
+            agg["keys"] |= s["keys"]
+            agg["digests"] |= s["digests"]
+            if len(agg["samples"]) < 3:
+                agg["samples"].extend(s["samples"])
+
+    # ---- known findings: replay each witness on the real code
+    known_by_monitor = {}
+    for k in kf:
+        for m in k["monitors"]:
+            known_by_monitor[m] = k
+        try:
+            fails, _, _, _ = run_case(prop, k["witness"])
+        except W.HarnessTimeout:
+            raise
+        hit = [g for g in fails if g["kind"] == "monitor" and g["monitor"] in k["monitors"]]
+        if hit:
+            out.known.append(f"KNOWN-FINDING: property={prop} {k['id']}: {k['what']}")
+
+    # ---- classify
+    mons = [f for f in agg["failures"] if f["kind"] == "monitor"]
+    diffs = [f for f in agg["failures"] if f["kind"] == "diff"]
+    attributed = collections.Counter()
+    new_mons = []
+    for f in mons:
+        k = known_by_monitor.get(f["monitor"])
+        if k is not None and trigger_holds(k, f):
+            attributed[k["id"]] += 1
+        else:
+            new_mons.append(f)
+    reported = set()
+    for f in sorted(new_mons, key=lambda f: len(json.dumps(f["case"]))):
+        if f["monitor"] in reported:
+            continue
+        reported.add(f["monitor"])
+        small = shrink(prop, f)
+        try:
+            again, _, _, _ = run_case(prop, small)
+        except Exception:
+            again = []
+        hit = [g for g in again if fail_key(g) == fail_key(f)]
+        g = hit[0] if hit else f
+        out.violation({"kind": "monitor", "monitor": {"name": f["monitor"], "detail": g.get("detail"), "line": g.get("line"),
+                                                      "step": g.get("step")},
+                       "case": small, "source": f["source"], "broken_obligation": None, "known_finding": None})
+    if (not proof["ok"] or diffs) and not reported:
+        what = []
+        if not proof["ok"]:
+            what.append({"proof": proof["problems"], "theorems": proof["theorems"]})
+        payload = {"kind": "proof" if not proof["ok"] else "diff",
+                   "broken_obligation": what or f"correspondence of the control model (cdriver) with asyncio_taskpool.control for {prop}",
+                   "searched": {"cases": agg["cases"], "monitors_of": prop}, "known_finding": None}
+        if diffs:
+            d = sorted(diffs, key=lambda f: len(json.dumps(f["case"])))[0]
+            small = shrink(prop, d)
+            payload.update({"case": small, "source": d["source"], "diverging_cases": len(diffs),
+                            "first_divergence": {k: v for k, v in d.items() if k not in ("case",)}})
+        out.violation(payload, nofail=True)
+
+    cov = proof_coverage(proof)
+    st = agg["stats"]
+    cov.update({
+        "evaluations": int(EVALS[prop](agg)),
+        "distinct_nontrivial": len(agg["keys"]),
+        "rule": RULES[prop],
+        "samples": agg["samples"][:3],
+        "traces_validated_against_impl": agg["cases"] - len({digest(f["case"]) for f in diffs}),
+        "cases": agg["cases"],
+        "distinct_cases": len(agg["digests"]),
+        "verdict_kinds": {k[2:]: v for k, v in sorted(st.items()) if k.startswith("v:")},
+        "error_kinds": {k[2:]: v for k, v in sorted(st.items()) if k.startswith("e:")},
+        "widths": {k[2:]: v for k, v in sorted(st.items()) if k.startswith("w:")},
+        "counters": {k: v for k, v in sorted(st.items()) if k[:2] not in ("v:", "e:", "w:")},
+        "disagreements": len(diffs),
+        "monitor_findings": {"new": len(new_mons), "attributed_to_known_findings": dict(attributed)},
+        "corpus_cases": len(corpus(prop)),
+        "exhaustive": False,
+    })
+    ev = {"property_id": prop, "tier": tier, "seed": seed, "level": "proof", "coverage": cov, "assumptions": ASSUME[prop]}
+    return ev
+
+
+EVALS = {
+    "C16": lambda a: a["stats"]["help_requests"] + a["stats"]["actions_compared"],
+    "C17": lambda a: a["stats"]["lines"],
+    "C18": lambda a: a["stats"]["lines"],
+    "C19": lambda a: sum(v for k, v in a["stats"].items() if k.startswith("op:")),
+}
+RULES = {
+    "C16": "fixed grid: 4 classes (TaskPool, SimpleTaskPool, two harness subclasses) x widths {-5,0,1,20,80,10^6}: handshake, "
+           "then top-level and per-command -h/--help through a real session; plus seeded (class, width, pool name) sweeps; "
+           "plus the real parser's per-action spec diffed against the model.  evaluations = help requests + argparse actions "
+           "compared; distinct non-trivial = distinct (class, width, help request) and (class, command) pairs",
+    "C17": "complete sweep of every subset of the options of every command (options before and after the positionals) + "
+           "seeded scripts; each line goes to the Lean model and through a real session; the model's verdict is applied as a "
+           "direct call to a twin pool; replies, pool observables and worker arguments compared.  evaluations = lines sent; "
+           "distinct non-trivial = distinct (class, line) whose verdict is a method/property access executed on both pools",
+    "C18": "seeded scripts for 1-3 sessions on one pool (counting subclass): command vocabulary, defective usage, malformed "
+           "and arbitrary printable lines, simultaneous lines, waiting commands with queued lines, blank lines; every reply "
+           "compared with a fresh session's reply on a twin pool; the Lean session model follows the event trace.  "
+           "evaluations = lines sent; distinct non-trivial = distinct non-blank (class, line)",
+    "C19": "seeded op sequences connect(raw|cli)/command/leave(close|eof|blank|exit)/stop/probe over real TCP and Unix "
+           "sockets, compared after every op with the Lean life-cycle model.  evaluations = ops; distinct non-trivial = "
+           "distinct sequences with at least one connection attempt and a stop",
+}
+COMMON = ["theorems are about the hand-written Lean model lean/Taskpool/Model/Control*; the member table is regenerated from "
+          "the real classes on every run and the model is tied to /repo by this run's differential check (unverified Python)",
+          "modelled, not verified: argparse, inspect, json, ast.literal_eval, importlib, asyncio streams/Server (CPython 3.12.1)",
+          "the library *logs* conversion failures (logger asyncio_taskpool); the harness gives that logger a NullHandler, so "
+          "logging's last-resort stderr handler is not counted as printing"]
+ASSUME = {
+    "C16": COMMON + ["partial: help TEXT and argparse's formatter are outside the model; sampled at the widths listed",
+                     "handshake line = JSON object with a numeric terminal_width (the quantifier's 'every terminal width')"],
+    "C17": COMMON + ["lexing of decimal/literal/dotted-path strings is Python's (tokens are structured in the theorem); "
+                     "validated only by the differential run",
+                     "canonical fragment: one run of positionals, options before/after it, exact option strings; lines "
+                     "the model declares outside are not sent in this check",
+                     "bool parameters are store_true flags whose absent value is False (the pool classes' own default)"],
+    "C18": COMMON + ["partial: 'argparse returns a verdict for EVERY string without raising, printing or exiting' is sampled, "
+                     "not proved", "text lines are valid UTF-8 without line breaks"],
+    "C19": COMMON + ["partial: kernel socket behaviour and timing are outside the model; bounded waits of 3 s per step",
+                     "asyncio 3.12.1 Server.wait_closed() waits for attached connections"],
+}
+
+
+def replay(prop, path, out, args):
+    with open(path) as fh:
+        d = json.load(fh)
+    case = d.get("case") or d.get("body") or d.get("witness")
+    if not case:
+        print("replay file has no case (proof/audit failure): rebuild with `cd lean && lake build`")
+        return 1
+    fails, st, samples, _ = run_case(prop, case)
+    print(json.dumps(case, indent=1)[:4000])
+    for f in fails:
+        print(json.dumps({k: v for k, v in f.items() if k != "case"}, default=str)[:1500])
+    kf = {m: k for k in known_findings(prop) for m in k["monitors"]}
+    bad = [f for f in fails if not (f["kind"] == "monitor" and f["monitor"] in kf and trigger_holds(kf[f["monitor"]], f))]
+    if bad:
+        print(f"VIOLATION property={prop} replay={path}")
+        return 1
+    print("no failure on this case")
+    return 0
